@@ -159,8 +159,10 @@ class Context:
         if self.work.exists():
             shutil.rmtree(self.work, ignore_errors=True)
         self.work.mkdir(parents=True, exist_ok=True)
-        self.deadline = None
-        self._sample_stride = 0
+        # import the library under test once, in the parent, so forked workers share it and no
+        # per-case alarm can interrupt a half-done import
+        import mxlpy  # noqa: F401
+        import mxlpy.surrogates._qss  # noqa: F401
 
     # -- scratch ---------------------------------------------------------------------
     def cleanup(self):
